@@ -380,7 +380,9 @@ pub fn check(fc: &FCase, st: &mut Stats) -> CheckResult {
         })?;
     }
     if t0.elapsed() > std::time::Duration::from_millis(2500) {
-        return Err(Fail::Inconclusive(format!("{what}: later requests took {:?} (lock wait?)", t0.elapsed())));
+        // slow, but served (a lock left behind would have made them fail or, past 90 s, trip the
+        // deadline above); on a busy machine this says nothing
+        st.label("c05:later-requests-served-but-slow");
     }
     st.sample(|| serde_json::json!({"case": fc, "calls": log.iter().map(|e| format!("{:?}:{}", e.call, e.ok)).collect::<Vec<_>>(), "injected": format!("{injected:?}"), "answer": out.short()}));
     Ok(())
